@@ -63,6 +63,12 @@ def check(col: Collector, tier: str):
     import_obligations(col, "C09.R12", "c06", lambda o: o.detail in ("new-code-value-for-every-call", "refuses-other-backends"),
                        "the collection call must stay the query's own node (a rebuilt call loses its keywords before the keyword refusal sees them) and a "
                        "declaration for another backend must be refused")
+    import_obligations(col, "C09.R12", "c07", lambda o: o.rule == "C07.R5" and ("store-into" in o.detail or "merge-into" in o.detail),
+                       "a type declaration that outlives its query (written into the table the defaults are restored from) makes a later query that "
+                       "treats a value as a sequence translate where a fresh process refuses it")
+    import_obligations(col, "C09.R12", "c04", lambda o: o.rule == "C04.R2" and o.construct.endswith("visit_IfExp"),
+                       "both arms of a conditional are translated on every path: an unsupported construct in the arm a literal test does not select "
+                       "must still be refused, never dropped")
     import_obligations(col, "C09.R12", "c07", lambda o: o.rule == "C07.R4" and o.detail == "reset-on-exception-exit",
                        "a refusal that leaves its declarations behind turns the next query's refusal into a translation (whatever exception type the "
                        "refusal ends in: KeyError for a missing mandatory key is one of them)")
